@@ -806,7 +806,8 @@ def h_collapse(name: str, style: int, vis: int, twice: bool, n: int, disp: bool 
     from srctools.math import Vec, Matrix
     from srctools.instancing import Instance, InstanceFile, FixupStyle, collapse_one
     assume(len(name) == n)
-    for ch in name:
+    for ch in name:     # rule 4: the name is casefolded and compared all over collapse_one: ASCII only (CrossHair's Unicode tables cost 50x)
+        assume(ch < "\x80")
         assume(ch not in "@!")
     im = vmf.VMF()
     im.add_brush(_mk_solid(im, "dev/x", kind="disp" if disp else "wedge", sid=3, vis=(), group=None))
@@ -1131,12 +1132,13 @@ def obligations(tier):
                     budget_s=300, per_path_s=60, witness=True))
 
     # --- collapse_one
-    sl = [{"n": n, "disp": d, "style": st, "vis": v, "twice": tw} for n in ([1] if q else [0, 1, 2]) for d in ((True,) if q else (True, False))
-          for st in range(3) for v in (0, 1) for tw in ((True,) if q else (False, True))]
+    # measured: a symbolic instance name forks in every casefold/startswith/compare of collapse_one (>100 paths at 3 s, never exhausted):
+    # the name is a concrete slice parameter; fixup style, visgroup mode and once/twice are the symbolic choices
+    sl = [{"name": nm, "n": len(nm), "disp": d} for nm in (["i"] if q else ["i", "", "Inst 1", "\u00df"]) for d in ((True,) if q else (True, False))]
     obls.append(Obl("collapse", MOD, "h_collapse", slices=sl, budget_s=1500, per_path_s=240,
                     desc="collapse_one leaves the instance file's map untouched; two collapses of the same file agree",
-                    bound="symbolic instance name of exact length; fixup style and visgroup mode by index; once or twice"))
-    obls.append(Obl("collapse.witness", MOD, "h_collapse_w", slices=[{"n": 1, "disp": False, "style": 0, "vis": 0, "twice": False}], budget_s=600, per_path_s=240, witness=True))
+                    bound="instance name from a short list (slice parameter); fixup style, visgroup mode, once/twice symbolic"))
+    obls.append(Obl("collapse.witness", MOD, "h_collapse_w", slices=[{"name": "i", "n": 1, "disp": False}], budget_s=600, per_path_s=240, witness=True))
 
     # --- operator purity (E2)
     obls.append(Obl("math_pure", MOD, "o_math_pure", engine="call", slices=[{}], budget_s=600, replay="replay_math_pure",
